@@ -19,6 +19,9 @@ import z3
 from .. import scen, common, sym, lpsem, lift, shapes
 from ..sym import Sym, lift as zl
 
+import builtins as _bi
+builtins_max = _bi.max
+
 PROP = 'C06'
 BOUNDS = dict(quick='Plant and CHP, T=4 (patterns) / T<=3 (physics), min_runtime,min_downtime in 0..3, initial state off/on for 0..3 steps; '
               'capacities, ramp, last dispatch, costs, fuel parameters symbolic; start/shutdown profiles of length <=2',
@@ -82,6 +85,8 @@ PHYS_QUICK = [
     ('phys_plant_start_profile_running_T1', dict(T=1, heat=False, fuel=False, mr=0, md=0, tar=1, tao=0, ramp=True, last='sym', sr=([1, 2, 2.5], [1.5, 2.5, 3]))),
     ('phys_plant_minruntime_beyond_horizon', dict(T=1, heat=False, fuel=True, mr=3, md=0, tar=1, tao=0, ramp=False)),
     ('phys_plant_mindowntime_beyond_horizon', dict(T=2, heat=False, fuel=False, mr=2, md=4, tar=0, tao=1, ramp=False)),
+    ('phys_plant_one_step_cold', dict(T=1, heat=False, fuel=True, mr=0, md=0, tar=0, tao=1, ramp=False)),
+    ('phys_plant_profile_bands_running', dict(T=4, heat=False, fuel=False, mr=0, md=0, tar=2, tao=0, ramp=True, last='sym', sr=([1, 2], [1.5, 2.5]), sdr=([1, 1.5], [2, 2.5]))),
     ('phys_plant_shutdown_profile_T1', dict(T=1, heat=False, fuel=False, mr=0, md=0, tar=2, tao=0, ramp=True, last='sym', sdr=([1, 2], [2, 3]))),
 ]
 PHYS_THOROUGH = PHYS_QUICK + [
@@ -280,6 +285,7 @@ def run_physics(rec, seed, T, heat, fuel, mr, md, tar, tao, ramp, last=None, cf=
     res = lift.explore_build(build, level=level)
     rec.paths = len(res)
     validated = False
+    attain = {}      # (profile, position, bound) -> (verdict over all paths, replay candidate): the declared band is attainable, not only respected
     for pi, (path, D) in enumerate(res):
         P = 'p%d' % pi
         if path.exc is not None:
@@ -367,6 +373,33 @@ def run_physics(rec, seed, T, heat, fuel, mr, md, tar, tao, ramp, last=None, cf=
                               info=dict(info0, ob='shutdown_profile', t=t, j=j))
             if heat:
                 rec.prove(P + '/heat_share/%d' % t, assume, heatv[t] <= share[t] * power[t], form='Q1', info=dict(info0, ob='heat_share', t=t))
+        # completeness of the profile bands (plants without heat): both ends of every declared band can be reached by a feasible point
+        if has_start and not heat and (k_sr or k_sd):
+            import time as _time
+            wanted = []
+            # position j of a start as late as possible (step T-1), position j of a shutdown as late as possible (flag in step T-1), and
+            # only where no other profile can claim the step
+            for j in range(k_sr):
+                t = T - 1
+                if tar == 0 and t - j >= 0:      # (a running plant cannot be started a second time on these short horizons: runtime >= both ramps)
+                    wanted += [(('start', j, b_), start[t - j] == 1, t, sr[0 if b_ == 'lo' else 1][j]) for b_ in ('lo', 'hi')]
+            for j in range(k_sd):
+                t = T - 2 - j
+                if t >= (k_sr if tar == 0 else builtins_max(0, k_sr - tar)):
+                    wanted += [(('shutdown', j, b_), shut[T - 1] == 1, t, sdr[0 if b_ == 'lo' else 1][j]) for b_ in ('lo', 'hi')]
+            for key, flag, t, bound in wanted:
+                if attain.get(key, ('', None))[0] == 'sat':
+                    continue
+                sol = z3.Solver(); sol.set('timeout', 60000)
+                sol.add(*(assume + [flag, virt[t] == zl(bound) * dtv[t]]))
+                t_ = _time.time(); r = str(sol.check()); rec.solver_s += _time.time() - t_
+                if r == 'sat':
+                    attain[key] = ('sat', None)
+                elif key not in attain or (r == 'unknown' and attain[key][0] == 'unsat'):
+                    env = common.generic_point(list(D.pre) + path.pc, D.names, seed) or {}
+                    attain[key] = (r, dict(env=env, info=dict(info0, ob='band_attainable', profile=key[0], j=key[1], side=key[2], t=t,
+                                                             flag_index=(ix[('bool_start', None)][t - key[1]] if key[0] == 'start' else ix[('bool_shutdown', None)][T - 1]),
+                                                             disp_index=ix[('disp', 'P')][t])))
         if ramp:
             rp = zl(pl.ramp)
             for t in range(1, T):
@@ -430,6 +463,13 @@ def run_physics(rec, seed, T, heat, fuel, mr, md, tar, tao, ramp, last=None, cf=
                 env.setdefault('value', 0.0)
                 rec.validations.append(dict(env=env, lifted=obs.to_jsonable(dict(problem=obs.problem_obs(op), output=obs.output_obs(out)), env)))
                 validated = True
+    for key, (r, cand) in sorted(attain.items()):
+        nm = 'all_paths/band_attainable/%s/%d/%s' % key
+        rec.distinct.add(nm)
+        rec.obligations.append(dict(name=nm, verdict={'sat': 'unsat', 'unsat': 'sat'}.get(r, 'unknown'), secs=0.0, form='Q4',
+                                    note='witness exists' if r == 'sat' else 'no feasible point reaches this end of the declared band'))
+        if r == 'unsat':
+            rec.candidates.append(dict(name=nm, form='Q4', env=cand['env'], info=cand['info']))
     return rec.result()
 
 
@@ -499,6 +539,18 @@ def judge(case, kwargs, cand, ans):
         return (True, 'pattern %s respects runtime/downtime/initial state but is infeasible' % o.get('pattern')) if o.get('feasible_with_pattern') is False \
             else (False, 'real solver finds the pattern feasible')
     p = o['problem']
+    if info.get('ob') == 'band_attainable':
+        dt = o['par']['dt']
+        xs_, cons = scen.z3_feasible_region(p)
+        side = 0 if info['side'] == 'lo' else 1
+        prof = kwargs['sr'] if info['profile'] == 'start' else kwargs['sdr']
+        bound = prof[side][info['j']] * dt[info['t']]
+        sol = z3.Solver(); sol.set('timeout', 120000)
+        sol.add(*cons); sol.add(xs_[info['flag_index']] == 1, xs_[info['disp_index']] == z3.RealVal(str(bound)))
+        r = str(sol.check())
+        if r == 'unsat':
+            return True, 'no feasible point of the real problem has output %.6g (the %s end of position %d of the %s profile) at step %d' % (bound, info['side'], info['j'], info['profile'], info['t'])
+        return (False, 'the band end is attainable') if r == 'sat' else (None, 'solver: ' + r)
     n = len(p['c'])
     x = [cand['env'].get('x%d' % i, 0.0) for i in range(n)]
     r = scen.feasibility_residual(p, x)
